@@ -21,82 +21,81 @@ open InfluxQL Gen
 /-- The reviewed panic-site inventory: (function, kind, expression) and, per entry, why it cannot
 fire on statements the parser produces. -/
 def reviewedSites : List (String × String × String) := [
-)sgrA.rpxe(nel htiw edam slaVgra / sgra --  ,)"]i[sgra" ,"xedni" ,"llaCecuder"(  
-)sgrA.rpxe(nel htiw edam slaVgra / sgra --  ,)"]i[slaVgra" ,"xedni" ,"llaCecuder"(  
-0 == laV.shr yb dedraug --  ,)"laV.shr / laV.shl" ,"edivid" ,"SHLdengisnUrpxEyraniBecuder"(  
-0 == laV.shr yb dedraug --  ,)"laV.shr % laV.shl" ,"edivid" ,"SHLdengisnUrpxEyraniBecuder"(  
-0 == laV.shr yb dedraug --  ,)"laV.shr % laV.shl" ,"edivid" ,"SHLregetnIrpxEyraniBecuder"(  
-)dbb66fa( noisrevnoc retfa dekcehc rosivid --  ,)")laV.shr(noitaruD.emit / laV.shl" ,"edivid" ,"SHLnoitaruDrpxEyraniBecuder"(  
-sehcnarb 1 == nel edisni ]0[slav/]0[seman ;)slav(nel*)seman(nel dezis tacnoc ;ssalc a fo sriap enuR ;)ytpme reven( xatnys/pxeger yb decudorp sedon tacnoc/erutpac fo ]0[buS --  ,)"]:1[buS.er" ,"ecils" ,"xegeRhctam"(  
-sehcnarb 1 == nel edisni ]0[slav/]0[seman ;)slav(nel*)seman(nel dezis tacnoc ;ssalc a fo sriap enuR ;)ytpme reven( xatnys/pxeger yb decudorp sedon tacnoc/erutpac fo ]0[buS --  ,)"]0[slav" ,"xedni" ,"xegeRhctam"(  
-sehcnarb 1 == nel edisni ]0[slav/]0[seman ;)slav(nel*)seman(nel dezis tacnoc ;ssalc a fo sriap enuR ;)ytpme reven( xatnys/pxeger yb decudorp sedon tacnoc/erutpac fo ]0[buS --  ,)"]0[buS.er" ,"xedni" ,"xegeRhctam"(  
-sehcnarb 1 == nel edisni ]0[slav/]0[seman ;)slav(nel*)seman(nel dezis tacnoc ;ssalc a fo sriap enuR ;)ytpme reven( xatnys/pxeger yb decudorp sedon tacnoc/erutpac fo ]0[buS --  ,)"]i[enuR.er" ,"xedni" ,"xegeRhctam"(  
-sehcnarb 1 == nel edisni ]0[slav/]0[seman ;)slav(nel*)seman(nel dezis tacnoc ;ssalc a fo sriap enuR ;)ytpme reven( xatnys/pxeger yb decudorp sedon tacnoc/erutpac fo ]0[buS --  ,)"]1+i[enuR.er" ,"xedni" ,"xegeRhctam"(  
-sehcnarb 1 == nel edisni ]0[slav/]0[seman ;)slav(nel*)seman(nel dezis tacnoc ;ssalc a fo sriap enuR ;)ytpme reven( xatnys/pxeger yb decudorp sedon tacnoc/erutpac fo ]0[buS --  ,)"]0[seman" ,"xedni" ,"xegeRhctam"(  
-sehcnarb 1 == nel edisni ]0[slav/]0[seman ;)slav(nel*)seman(nel dezis tacnoc ;ssalc a fo sriap enuR ;)ytpme reven( xatnys/pxeger yb decudorp sedon tacnoc/erutpac fo ]0[buS --  ,)"]j+)slav(nel*i[tacnoc" ,"xedni" ,"xegeRhctam"(  
-nruter 2 < )buS.er(nel yb dedraug --  ,)"]1-)buS.er(nel : 1[buS.er" ,"ecils" ,"xegeRtcaxEhctam"(  
-nruter 2 < )buS.er(nel yb dedraug --  ,)"]1-)buS.er(nel[buS.er" ,"xedni" ,"xegeRtcaxEhctam"(  
-nruter 2 < )buS.er(nel yb dedraug --  ,)"]0[buS.er" ,"xedni" ,"xegeRtcaxEhctam"(  
-deldnah snoitatnemelpmi owt eht yltcaxe sah ecruoS --  ,)")"\elbahcaernu"\(cinap" ,"cinap" ,"ecruoSenolc"(  
-ecafretnI.tros --  ,)"]j[a" ,"xedni" ,"pawS.sfeRraV"(  
-ecafretnI.tros --  ,)"]i[a" ,"xedni" ,"pawS.sfeRraV"(  
-)a(nel htiw edam s --  ,)"]i[s" ,"xedni" ,"sgnirtS.sfeRraV"(  
-ecafretnI.tros --  ,)"]j[a" ,"xedni" ,"sseL.sfeRraV"(  
-ecafretnI.tros --  ,)"]i[a" ,"xedni" ,"sseL.sfeRraV"(  
-0 nruter → 0 == shr yb dedraug si % dna / regetni yreve --  ,)"shr / )shl(46tniu" ,"edivid" ,"rpxEyraniBlave.lavEreulaV"(  
-0 nruter → 0 == shr yb dedraug si % dna / regetni yreve --  ,)"shr % )shl(46tniu" ,"edivid" ,"rpxEyraniBlave.lavEreulaV"(  
-0 nruter → 0 == shr yb dedraug si % dna / regetni yreve --  ,)")shr(46tniu / shl" ,"edivid" ,"rpxEyraniBlave.lavEreulaV"(  
-0 nruter → 0 == shr yb dedraug si % dna / regetni yreve --  ,)"shr / shl" ,"edivid" ,"rpxEyraniBlave.lavEreulaV"(  
-0 nruter → 0 == shr yb dedraug si % dna / regetni yreve --  ,)")shr(46tniu % shl" ,"edivid" ,"rpxEyraniBlave.lavEreulaV"(  
-0 nruter → 0 == shr yb dedraug si % dna / regetni yreve --  ,)"shr % shl" ,"edivid" ,"rpxEyraniBlave.lavEreulaV"(  
-)sgrA.rpxe(nel htiw edam sgra --  ,)"]i[sgra" ,"xedni" ,"lavE.lavEreulaV"(  
-)sgrA.rpxe(nel htiw edam sgra --  ,)"]i[sgra" ,"xedni" ,"epyTrpxEllaClave.lavEreulaVepyT"(  
-)nel(ekam nihtiw xedni --  ,)"]i[)a*(" ,"xedni" ,"yraniBlahsramnU.secruoS"(  
-)gnidocne yranib( 31C fo tes noitarepo eht edistuo ;stnemerusaem edocne taht srellac hguorht ylno seireuqbus htiw stnemetats desrap morf elbahcaer ton --  ,)"]i[smetI.bp" ,"xedni" ,"yraniBlahsraM.secruoS"(  
-)gnidocne yranib( 31C fo tes noitarepo eht edistuo ;stnemerusaem edocne taht srellac hguorht ylno seireuqbus htiw stnemetats desrap morf elbahcaer ton --  ,)")tnemerusaeM*(.ecruos" ,"tressa" ,"yraniBlahsraM.secruoS"(  
-|| 0 == )sdleiFtroS.s(nel yb dedraug --  ,)"]0[sdleiFtroS.s" ,"xedni" ,"gnidnecsAemiT.tnemetatStceleS"(  
-sdleiF.s revo segnar i --  ,)"]:1+i[sdleiF.s" ,"ecils" ,"sdleiFemiTetirweR.tnemetatStceleS"(  
-sdleiF.s revo segnar i --  ,)"]i:[sdleiF.s" ,"ecils" ,"sdleiFemiTetirweR.tnemetatStceleS"(  
-sdleiF.s revo segnar i --  ,)"]i[sdleiF.s" ,"xedni" ,"sdleiFemiTetirweR.tnemetatStceleS"(  
-sesac )slav(nel edisni era secidni slav ;thgir eht no laretiLxegeR a htiw sedon ~! / ~= sdliub ylno resrap eht --  ,)"]i[slav" ,"xedni" ,"snoitidnoCxegeRetirweR.tnemetatStceleS"(  
-sesac )slav(nel edisni era secidni slav ;thgir eht no laretiLxegeR a htiw sedon ~! / ~= sdliub ylno resrap eht --  ,)"]0[slav" ,"xedni" ,"snoitidnoCxegeRetirweR.tnemetatStceleS"(  
-sesac )slav(nel edisni era secidni slav ;thgir eht no laretiLxegeR a htiw sedon ~! / ~= sdliub ylno resrap eht --  ,)")laretiLxegeR*(.SHR.eb" ,"tressa" ,"snoitidnoCxegeRetirweR.tnemetatStceleS"(  
-skcehc 0 == / 0 > )sgrA.llac(nel yb dedraug ]0[sgrA ;llaC* a si llaC* a fo rpxEenolC --  ,)"]0[sgrA.llac" ,"xedni" ,"sdleiFetirweR.tnemetatStceleS"(  
-skcehc 0 == / 0 > )sgrA.llac(nel yb dedraug ]0[sgrA ;llaC* a si llaC* a fo rpxEenolC --  ,)")llaC*(.)rpxe(rpxEenolC" ,"tressa" ,"sdleiFetirweR.tnemetatStceleS"(  
-)b33aa6c( 0 == lavretni yb dedraug redniamer ;2 == nel yb dedraug ]1[sgrA --  ,)"]1[sgrA.llac" ,"xedni" ,"tesffOyBpuorG.tnemetatStceleS"(  
-)b33aa6c( 0 == lavretni yb dedraug redniamer ;2 == nel yb dedraug ]1[sgrA --  ,)"lavretni % laV.rpxe" ,"edivid" ,"tesffOyBpuorG.tnemetatStceleS"(  
-kcehc tnuoc tnemugra 2..1 eht yb dedraug --  ,)"]0[sgrA.llac" ,"xedni" ,"lavretnIyBpuorG.tnemetatStceleS"(  
-2 > )sgrA.llac(nel yb dedraug --  ,)"]1-)sgrA.llac(nel : 1[sgrA.llac" ,"ecils" ,"emaNyBrpxEdleiF.tnemetatStceleS"(  
-)959f5d7( 1 > )sgrA.f(nel yb dedraug ]:1[sgrA ;seirtne tesffo+)sdleiFnmuloc(nel sah semaNnmuloc --  ,)"]:1[sgrA.f" ,"ecils" ,"semaNnmuloC.tnemetatStceleS"(  
-)959f5d7( 1 > )sgrA.f(nel yb dedraug ]:1[sgrA ;seirtne tesffo+)sdleiFnmuloc(nel sah semaNnmuloc --  ,)"]tesffo+i[semaNnmuloc" ,"xedni" ,"semaNnmuloC.tnemetatStceleS"(  
-)959f5d7( 1 > )sgrA.f(nel yb dedraug ]:1[sgrA ;seirtne tesffo+)sdleiFnmuloc(nel sah semaNnmuloc --  ,)"]0[semaNnmuloc" ,"xedni" ,"semaNnmuloC.tnemetatStceleS"(  
-rorre rellac a si sdnik segnahc taht retirweR a ;)epyt citats emas eht fo edon nettirwer eht snruter esac hcae( nevig saw ti dnik edon eht snruter etirweR --  ,)")rpxE(.dnoc" ,"tressa" ,"etirweR"(  
-rorre rellac a si sdnik segnahc taht retirweR a ;)epyt citats emas eht fo edon nettirwer eht snruter esac hcae( nevig saw ti dnik edon eht snruter etirweR --  ,)")tnemetatS(.)s ,r(etirweR" ,"tressa" ,"etirweR"(  
-rorre rellac a si sdnik segnahc taht retirweR a ;)epyt citats emas eht fo edon nettirwer eht snruter esac hcae( nevig saw ti dnik edon eht snruter etirweR --  ,)")stnemetatS(.)stnemetatS.n ,r(etirweR" ,"tressa" ,"etirweR"(  
-rorre rellac a si sdnik segnahc taht retirweR a ;)epyt citats emas eht fo edon nettirwer eht snruter esac hcae( nevig saw ti dnik edon eht snruter etirweR --  ,)")tnemetatStceleS*(.)tnemetatS.n ,r(etirweR" ,"tressa" ,"etirweR"(  
-rorre rellac a si sdnik segnahc taht retirweR a ;)epyt citats emas eht fo edon nettirwer eht snruter esac hcae( nevig saw ti dnik edon eht snruter etirweR --  ,)")secruoS(.)secruoS.n ,r(etirweR" ,"tressa" ,"etirweR"(  
-rorre rellac a si sdnik segnahc taht retirweR a ;)epyt citats emas eht fo edon nettirwer eht snruter esac hcae( nevig saw ti dnik edon eht snruter etirweR --  ,)")rpxE(.)SHR.n ,r(etirweR" ,"tressa" ,"etirweR"(  
-rorre rellac a si sdnik segnahc taht retirweR a ;)epyt citats emas eht fo edon nettirwer eht snruter esac hcae( nevig saw ti dnik edon eht snruter etirweR --  ,)")rpxE(.)SHL.n ,r(etirweR" ,"tressa" ,"etirweR"(  
-rorre rellac a si sdnik segnahc taht retirweR a ;)epyt citats emas eht fo edon nettirwer eht snruter esac hcae( nevig saw ti dnik edon eht snruter etirweR --  ,)")sdleiF(.)sdleiF.n ,r(etirweR" ,"tressa" ,"etirweR"(  
-rorre rellac a si sdnik segnahc taht retirweR a ;)epyt citats emas eht fo edon nettirwer eht snruter esac hcae( nevig saw ti dnik edon eht snruter etirweR --  ,)")rpxE(.)rpxE.n ,r(etirweR" ,"tressa" ,"etirweR"(  
-rorre rellac a si sdnik segnahc taht retirweR a ;)epyt citats emas eht fo edon nettirwer eht snruter esac hcae( nevig saw ti dnik edon eht snruter etirweR --  ,)")snoisnemiD(.)snoisnemiD.n ,r(etirweR" ,"tressa" ,"etirweR"(  
-rorre rellac a si sdnik segnahc taht retirweR a ;)epyt citats emas eht fo edon nettirwer eht snruter esac hcae( nevig saw ti dnik edon eht snruter etirweR --  ,)")dleiF*(.)f ,r(etirweR" ,"tressa" ,"etirweR"(  
-rorre rellac a si sdnik segnahc taht retirweR a ;)epyt citats emas eht fo edon nettirwer eht snruter esac hcae( nevig saw ti dnik edon eht snruter etirweR --  ,)")rpxE(.)rpxe ,r(etirweR" ,"tressa" ,"etirweR"(  
-rorre rellac a si sdnik segnahc taht retirweR a ;)epyt citats emas eht fo edon nettirwer eht snruter esac hcae( nevig saw ti dnik edon eht snruter etirweR --  ,)")noisnemiD*(.)d ,r(etirweR" ,"tressa" ,"etirweR"(  
-ecafretnI.tros --  ,)"]j[a" ,"xedni" ,"pawS.sdleiF"(  
-ecafretnI.tros --  ,)"]i[a" ,"xedni" ,"pawS.sdleiF"(  
-tros egakcap morf emoc secidni :ecafretnI.tros --  ,)"]j[a" ,"xedni" ,"sseL.sdleiF"(  
-tros egakcap morf emoc secidni :ecafretnI.tros --  ,)"]i[a" ,"xedni" ,"sseL.sdleiF"(  
-nruter 0 == )srpxe(nel yb dedraug --  ,)"]:1[srpxe" ,"ecils" ,"noitcnujnoCoTsrpxE"(  
-nruter 0 == )srpxe(nel yb dedraug --  ,)"]0[srpxe" ,"xedni" ,"noitcnujnoCoTsrpxE"(  
-)0767bb9( noitressa ko-ammoc a dna 0 > )sgrA.rpxe(nel yb dedraug --  ,)"]0[sgrA.rpxe" ,"xedni" ,"ezilamroN.snoisnemiD"(  
-laretil tnemele-eno a si pe --  ,)"]0[pe" ,"xedni" ,"segelivirPderiuqeR.tnemetatSyreuQsuounitnoCetaerC"(  
-)1ab9b3e ecnis esac a sah epyt edon TSA yreve( egakcap eht edistuo epyt rpxE na rof ylno dehcaer si )"elbahcaernu"(cinap lanif eht ;)sgrA.rpxe(nel htiw edam si sgra --  ,)")"\elbahcaernu"\(cinap" ,"cinap" ,"rpxEenolC"(  
-)1ab9b3e ecnis esac a sah epyt edon TSA yreve( egakcap eht edistuo epyt rpxE na rof ylno dehcaer si )"elbahcaernu"(cinap lanif eht ;)sgrA.rpxe(nel htiw edam si sgra --  ,)"]i[sgra" ,"xedni" ,"rpxEenolC"(  
+  ("CloneExpr", "index", "args[i]"),  -- args is made with len(expr.Args); the final panic(\"unreachable\") needs an Expr type from outside the package (every node type has a case since e3b9ba1)
+  ("CloneExpr", "panic", "panic(\"unreachable\")"),  -- args is made with len(expr.Args); the final panic(\"unreachable\") needs an Expr type from outside the package (every node type has a case since e3b9ba1)
+  ("CreateContinuousQueryStatement.RequiredPrivileges", "index", "ep[0]"),  -- ep is a one-element literal
+  ("Dimensions.Normalize", "index", "expr.Args[0]"),  -- guarded by len(expr.Args) > 0 and a comma-ok assertion (9bb7670)
+  ("ExprsToConjunction", "index", "exprs[0]"),  -- guarded by len(exprs) == 0 return
+  ("ExprsToConjunction", "slice", "exprs[1:]"),  -- guarded by len(exprs) == 0 return
+  ("Fields.Less", "index", "a[i]"),  -- sort.Interface: indices come from package sort
+  ("Fields.Less", "index", "a[j]"),  -- sort.Interface: indices come from package sort
+  ("Fields.Swap", "index", "a[i]"),  -- sort.Interface
+  ("Fields.Swap", "index", "a[j]"),  -- sort.Interface
+  ("Rewrite", "assert", "Rewrite(r, d).(*Dimension)"),  -- each case of Rewrite returns a node of the static type it was given; a Rewriter that changes node kinds is a caller error
+  ("Rewrite", "assert", "Rewrite(r, expr).(Expr)"),  -- each case of Rewrite returns a node of the static type it was given; a Rewriter that changes node kinds is a caller error
+  ("Rewrite", "assert", "Rewrite(r, f).(*Field)"),  -- each case of Rewrite returns a node of the static type it was given; a Rewriter that changes node kinds is a caller error
+  ("Rewrite", "assert", "Rewrite(r, n.Dimensions).(Dimensions)"),  -- each case of Rewrite returns a node of the static type it was given; a Rewriter that changes node kinds is a caller error
+  ("Rewrite", "assert", "Rewrite(r, n.Expr).(Expr)"),  -- each case of Rewrite returns a node of the static type it was given; a Rewriter that changes node kinds is a caller error
+  ("Rewrite", "assert", "Rewrite(r, n.Fields).(Fields)"),  -- each case of Rewrite returns a node of the static type it was given; a Rewriter that changes node kinds is a caller error
+  ("Rewrite", "assert", "Rewrite(r, n.LHS).(Expr)"),  -- each case of Rewrite returns a node of the static type it was given; a Rewriter that changes node kinds is a caller error
+  ("Rewrite", "assert", "Rewrite(r, n.RHS).(Expr)"),  -- each case of Rewrite returns a node of the static type it was given; a Rewriter that changes node kinds is a caller error
+  ("Rewrite", "assert", "Rewrite(r, n.Sources).(Sources)"),  -- each case of Rewrite returns a node of the static type it was given; a Rewriter that changes node kinds is a caller error
+  ("Rewrite", "assert", "Rewrite(r, n.Statement).(*SelectStatement)"),  -- each case of Rewrite returns a node of the static type it was given; a Rewriter that changes node kinds is a caller error
+  ("Rewrite", "assert", "Rewrite(r, n.Statements).(Statements)"),  -- each case of Rewrite returns a node of the static type it was given; a Rewriter that changes node kinds is a caller error
+  ("Rewrite", "assert", "Rewrite(r, s).(Statement)"),  -- each case of Rewrite returns a node of the static type it was given; a Rewriter that changes node kinds is a caller error
+  ("Rewrite", "assert", "cond.(Expr)"),  -- each case of Rewrite returns a node of the static type it was given; a Rewriter that changes node kinds is a caller error
+  ("SelectStatement.ColumnNames", "index", "columnNames[0]"),  -- columnNames has len(columnFields)+offset entries; Args[1:] guarded by len(f.Args) > 1 (7d5f959)
+  ("SelectStatement.ColumnNames", "index", "columnNames[i+offset]"),  -- columnNames has len(columnFields)+offset entries; Args[1:] guarded by len(f.Args) > 1 (7d5f959)
+  ("SelectStatement.ColumnNames", "slice", "f.Args[1:]"),  -- columnNames has len(columnFields)+offset entries; Args[1:] guarded by len(f.Args) > 1 (7d5f959)
+  ("SelectStatement.FieldExprByName", "slice", "call.Args[1 : len(call.Args)-1]"),  -- guarded by len(call.Args) > 2
+  ("SelectStatement.GroupByInterval", "index", "call.Args[0]"),  -- guarded by the 1..2 argument count check
+  ("SelectStatement.GroupByOffset", "divide", "expr.Val % interval"),  -- Args[1] guarded by len == 2; remainder guarded by interval == 0 (c6aa33b)
+  ("SelectStatement.GroupByOffset", "index", "call.Args[1]"),  -- Args[1] guarded by len == 2; remainder guarded by interval == 0 (c6aa33b)
+  ("SelectStatement.RewriteFields", "assert", "CloneExpr(expr).(*Call)"),  -- CloneExpr of a *Call is a *Call; Args[0] guarded by the len(call.Args) checks before it
+  ("SelectStatement.RewriteFields", "index", "call.Args[0]"),  -- CloneExpr of a *Call is a *Call; Args[0] guarded by the len(call.Args) checks before it
+  ("SelectStatement.RewriteRegexConditions", "index", "vals[0]"),  -- vals indices are inside the len(vals) cases; the RHS assertion is comma-ok since 811d75b
+  ("SelectStatement.RewriteRegexConditions", "index", "vals[i]"),  -- vals indices are inside the len(vals) cases; the RHS assertion is comma-ok since 811d75b
+  ("SelectStatement.RewriteTimeFields", "index", "s.Fields[i]"),  -- i ranges over s.Fields
+  ("SelectStatement.RewriteTimeFields", "slice", "s.Fields[:i]"),  -- i ranges over s.Fields
+  ("SelectStatement.RewriteTimeFields", "slice", "s.Fields[i+1:]"),  -- i ranges over s.Fields
+  ("SelectStatement.TimeAscending", "index", "s.SortFields[0]"),  -- guarded by len(s.SortFields) == 0 ||
+  ("Sources.MarshalBinary", "assert", "source.(*Measurement)"),  -- binary encoding, outside the operation set of C13; subquery sources are rejected by the type switch before
+  ("Sources.MarshalBinary", "index", "pb.Items[i]"),  -- binary encoding, outside the operation set of C13; subquery sources are rejected by the type switch before
+  ("Sources.UnmarshalBinary", "index", "(*a)[i]"),  -- index within make(len)
+  ("TypeValuerEval.evalCallExprType", "index", "args[i]"),  -- args made with len(expr.Args)
+  ("ValuerEval.Eval", "index", "args[i]"),  -- args made with len(expr.Args)
+  ("ValuerEval.evalBinaryExpr", "divide", "lhs % rhs"),  -- every integer / and % is guarded by rhs == 0 -> return 0
+  ("ValuerEval.evalBinaryExpr", "divide", "lhs % uint64(rhs)"),  -- every integer / and % is guarded by rhs == 0 -> return 0
+  ("ValuerEval.evalBinaryExpr", "divide", "lhs / rhs"),  -- every integer / and % is guarded by rhs == 0 -> return 0
+  ("ValuerEval.evalBinaryExpr", "divide", "lhs / uint64(rhs)"),  -- every integer / and % is guarded by rhs == 0 -> return 0
+  ("ValuerEval.evalBinaryExpr", "divide", "uint64(lhs) % rhs"),  -- every integer / and % is guarded by rhs == 0 -> return 0
+  ("ValuerEval.evalBinaryExpr", "divide", "uint64(lhs) / rhs"),  -- every integer / and % is guarded by rhs == 0 -> return 0
+  ("VarRefs.Less", "index", "a[i]"),  -- sort.Interface
+  ("VarRefs.Less", "index", "a[j]"),  -- sort.Interface
+  ("VarRefs.Strings", "index", "s[i]"),  -- s made with len(a)
+  ("VarRefs.Swap", "index", "a[i]"),  -- sort.Interface
+  ("VarRefs.Swap", "index", "a[j]"),  -- sort.Interface
+  ("cloneSource", "panic", "panic(\"unreachable\")"),  -- Source has exactly the two implementations handled
+  ("matchExactRegex", "index", "re.Sub[0]"),  -- guarded by len(re.Sub) < 2 return
+  ("matchExactRegex", "index", "re.Sub[len(re.Sub)-1]"),  -- guarded by len(re.Sub) < 2 return
+  ("matchExactRegex", "slice", "re.Sub[1 : len(re.Sub)-1]"),  -- guarded by len(re.Sub) < 2 return
+  ("matchRegex", "index", "concat[i*len(vals)+j]"),  -- Sub[0] of capture/concat nodes built by regexp/syntax (never empty); Rune pairs of a class; concat sized len(names)*len(vals); names[0]/vals[0] inside len == 1 branches
+  ("matchRegex", "index", "names[0]"),  -- Sub[0] of capture/concat nodes built by regexp/syntax (never empty); Rune pairs of a class; concat sized len(names)*len(vals); names[0]/vals[0] inside len == 1 branches
+  ("matchRegex", "index", "re.Rune[i+1]"),  -- Sub[0] of capture/concat nodes built by regexp/syntax (never empty); Rune pairs of a class; concat sized len(names)*len(vals); names[0]/vals[0] inside len == 1 branches
+  ("matchRegex", "index", "re.Rune[i]"),  -- Sub[0] of capture/concat nodes built by regexp/syntax (never empty); Rune pairs of a class; concat sized len(names)*len(vals); names[0]/vals[0] inside len == 1 branches
+  ("matchRegex", "index", "re.Sub[0]"),  -- Sub[0] of capture/concat nodes built by regexp/syntax (never empty); Rune pairs of a class; concat sized len(names)*len(vals); names[0]/vals[0] inside len == 1 branches
+  ("matchRegex", "index", "vals[0]"),  -- Sub[0] of capture/concat nodes built by regexp/syntax (never empty); Rune pairs of a class; concat sized len(names)*len(vals); names[0]/vals[0] inside len == 1 branches
+  ("matchRegex", "slice", "re.Sub[1:]"),  -- Sub[0] of capture/concat nodes built by regexp/syntax (never empty); Rune pairs of a class; concat sized len(names)*len(vals); names[0]/vals[0] inside len == 1 branches
+  ("reduceBinaryExprDurationLHS", "divide", "lhs.Val / time.Duration(rhs.Val)"),  -- divisor checked after conversion (af66bbd)
+  ("reduceBinaryExprIntegerLHS", "divide", "lhs.Val % rhs.Val"),  -- guarded by rhs.Val == 0
+  ("reduceBinaryExprUnsignedLHS", "divide", "lhs.Val % rhs.Val"),  -- guarded by rhs.Val == 0
+  ("reduceBinaryExprUnsignedLHS", "divide", "lhs.Val / rhs.Val"),  -- guarded by rhs.Val == 0
+  ("reduceCall", "index", "argVals[i]"),  -- args / argVals made with len(expr.Args)
+  ("reduceCall", "index", "args[i]")   -- args / argVals made with len(expr.Args)
 ]
 
 /-- The regenerated inventory is exactly the reviewed one. -/
-theorem gen_sites_reviewed : sitesAst = reviewedSites := by decide +kernel
+theorem gen_sites_reviewed : sitesAst = reviewedSites := by rfl
 
 /-! ## GROUP BY accessors -/
 
